@@ -28,6 +28,11 @@ type Obligation struct {
 	replayOK bool
 }
 
+type freeBinding struct {
+	ptr  Value
+	elem types.Type
+}
+
 type unsupported struct{ msg string }
 
 func unsup(f string, a ...any) { panic(unsupported{fmt.Sprintf(f, a...)}) }
@@ -75,11 +80,12 @@ type Exec struct {
 	ghostInit map[string]*Term
 	nameCount map[string]int
 	pendingRegions []modRegion
+	freeOf    map[*Contract]map[string]freeBinding
 }
 
 func newExec(w *World, specs *SpecDB) *Exec {
 	return &Exec{w: w, specs: specs, notes: map[string]bool{}, abstract: map[string]bool{}, assumed: map[string]bool{}, inlined: map[string]bool{},
-		cloEnv: map[*Term]*Closure{}, nameCount: map[string]int{}, fnIDs: map[*ssa.Function]int{}, fnByID: []*ssa.Function{nil}}
+		cloEnv: map[*Term]*Closure{}, nameCount: map[string]int{}, freeOf: map[*Contract]map[string]freeBinding{}, fnIDs: map[*ssa.Function]int{}, fnByID: []*ssa.Function{nil}}
 }
 
 func (x *Exec) fnID(fn *ssa.Function) int {
@@ -169,7 +175,7 @@ func (x *Exec) wf(st *State, t *Term, typ types.Type) *Term {
 		return And(Ge(t, Int(0)), Lt(t, st.alloc))
 	case *types.Slice:
 		return And(Ge(sArr(t), Int(0)), Lt(sArr(t), st.alloc), Ge(sOff(t), Int(0)), Ge(sLen(t), Int(0)), Le(sLen(t), sCap(t)),
-			Implies(Eq(sArr(t), Int(0)), Eq(sCap(t), Int(0))))
+			Implies(Eq(sArr(t), Int(0)), And(Eq(sCap(t), Int(0)), Eq(sOff(t), Int(0)))))
 	case *types.Interface, *types.TypeParam:
 		return And(Ge(Acc(t, 0), Int(0)), Implies(Eq(Acc(t, 0), Int(0)), Eq(Acc(t, 1), Int(0))), Ge(Acc(t, 1), Int(0)), Lt(Acc(t, 1), st.alloc))
 	case *types.Signature:
@@ -1137,6 +1143,23 @@ func (x *Exec) binop(op token.Token, a, b *Term, typ types.Type) *Term {
 }
 
 func (x *Exec) eqTerms(a, b *Term) *Term {
+	// Go only allows slices and functions to be compared with nil
+	if a.Sort == sortSlice {
+		if b == NilSlice() {
+			return Eq(sArr(a), Int(0))
+		}
+		if a == NilSlice() {
+			return Eq(sArr(b), Int(0))
+		}
+	}
+	if a.Sort == sortFn {
+		if b == NilFn() {
+			return Eq(Acc(a, 0), Int(0))
+		}
+		if a == NilFn() {
+			return Eq(Acc(b, 0), Int(0))
+		}
+	}
 	return Eq(a, b)
 }
 
@@ -1260,6 +1283,7 @@ func (x *Exec) evalInv(fr *Frame, st, snap *State, loop *LoopInfo, inv Clause) *
 	con := x.contractForFrame(fr)
 	env := &SpecEnv{x: x, vars: map[string]SVal{}, st: st, old: fr.entry, pkg: fr.fn.Pkg.Pkg, lets: map[string]*Expr{}, fr: fr, loop: loop}
 	if con != nil {
+		env.free = x.freeOf[con]
 		for i, p := range con.Params {
 			if i < len(fr.params) && i < len(fr.fn.Params) {
 				env.vars[p] = SVal{T: fr.params[i].T, GT: fr.fn.Params[i].Type(), LV: fr.params[i].LV}
